@@ -88,7 +88,12 @@ void vf_ws_fill(vf_case *c, void *p, size_t n)
     if (getenv("VF_NOJUNK")) return;
     static const unsigned char pats[] = { 0xA5, 0xFF, 0x7F, 0x01 };
     unsigned char b = pats[(unsigned long)c->index % 4];
-    if (c->index % 5 == 4) { uint64_t z = (uint64_t)c->index * 0x9E3779B97F4A7C15ULL + 1; unsigned char *q = p; for (size_t i = 0; i < n; i++) { z = z * 6364136223846793005ULL + 1442695040888963407ULL; q[i] = (unsigned char)(z >> 56); } }
+    if (c->index % 6 == 3) {   /* what an earlier factorization leaves behind: small integers that look like column / row numbers and marks */
+        uint64_t z = (uint64_t)c->index * 0x9E3779B97F4A7C15ULL + 7; unsigned char *q = p;
+        for (size_t i = 0; i < n / 4; i++) { z = z * 6364136223846793005ULL + 1442695040888963407ULL; int32_t v = (int32_t)((z >> 40) % 50) - 1; memcpy(q + 4 * i, &v, 4); }
+        memset((unsigned char *)p + (n / 4) * 4, 0, n % 4);
+    }
+    else if (c->index % 5 == 4) { uint64_t z = (uint64_t)c->index * 0x9E3779B97F4A7C15ULL + 1; unsigned char *q = p; for (size_t i = 0; i < n; i++) { z = z * 6364136223846793005ULL + 1442695040888963407ULL; q[i] = (unsigned char)(z >> 56); } }
     else memset(p, b, n);
 }
 void *vf_ws_alloc(vf_case *c, size_t n) { void *p = malloc(n ? n : 1); if (p) vf_ws_fill(c, p, n); return p; }
